@@ -1,5 +1,5 @@
-import Pywbem.Model.CimValue
-open Lean Pywbem.Proto Pywbem.Model.CimTypes Pywbem.Model.DateTime Pywbem.Model.CimValue
+import Pywbem.Model.TypedElems
+open Lean Pywbem.Proto Pywbem.Model.CimTypes Pywbem.Model.DateTime Pywbem.Model.CimValue Pywbem.Model.TypedElems
 
 /-! C06 driver.  One JSON object per line.
   {"op":"int","ty":T,"pos":[arg…],"x":arg|null,"base":arg|null[,"enforce":bool]}      → {"ok":"<int>"} | {"exc":…}
@@ -13,6 +13,10 @@ open Lean Pywbem.Proto Pywbem.Model.CimTypes Pywbem.Model.DateTime Pywbem.Model.
   {"op":"real","s":["<%.17G text>",…]}  → {"ok":["<fixed text>",…]}
   {"op":"cv","v":val,"t":T|null}        → {"ok":val} | {"exc":…}
   {"op":"unp","items":[{"s":[cp…],"pf":"<bits>"|null,"t":T},…]} → {"ok":[val|{"exc":…},…]}   (TupleParser.unpack_numeric)
+  {"op":"elem","kind":"CIMProperty"|…,"args":{"value":val,"type":T|null,"is_array":b|null,"emb":null|false|"instance"|"object"|other,
+        "refclass":b},"values":[val…]} → {"ok":ELEM,"steps":[{"exc":…|null,"elem":ELEM}…]} | {"exc":…}   (constructor, then value setter)
+  {"op":"hist","init":[{"key":n,"args":ARGS}…],"ops":[{"op":"update"|"update_existing"|"setitem"|"propvalue",
+        "items":[{"key":n,"value":val | "prop":{"name":n,ARGS…}}…]}…]} → {"ok":[{"exc":…|null,"state":[[key,ELEM]…]}…]}
   {"op":"limits"}                        → the limits table, config switch and format digits the model uses -/
 
 def parseArg (j : Json) : Arg :=
@@ -112,6 +116,7 @@ def parseSc (j : Json) : Sc :=
   | some "classname" => .className
   | some "instance" => .instance ((getBool j "t").getD true)
   | some "class" => .cimClass
+  | some "tuple" => .tuple ((getBool j "t").getD true)
   | _ => .obj ((getBool j "t").getD true)
 
 def scToJson : Sc → Json
@@ -135,6 +140,7 @@ def scToJson : Sc → Json
   | .instance t => Json.mkObj [("k", "instance"), ("t", t)]
   | .cimClass => Json.mkObj [("k", "class")]
   | .obj t => Json.mkObj [("k", "obj"), ("t", t)]
+  | .tuple t => Json.mkObj [("k", "tuple"), ("t", t)]
 
 /-- the scalars of a value JSON (to collect the harness-supplied third-party answers) -/
 def scalarsOf (j : Json) : List Json :=
@@ -155,6 +161,78 @@ def envOf (scalars : List Json) : Env :=
     uri := fun s =>
       (scalars.find? (fun j => (getStr j "k" == some "str" || getStr j "k" == some "char16") && (getChars j "s").getD [] == s)).bind
         (fun j => getBool j "uri") }
+
+/-- every JSON object with a "k" field below j (the scalars of all values of a request) -/
+partial def allScalars (j : Json) : List Json :=
+  match j with
+  | .arr a => a.toList.flatMap allScalars
+  | .obj _ =>
+    let here := match getStr j "k" with | some "list" => [] | some _ => [j] | none => []
+    let kids := match j with
+      | .obj m => (m.toList.map (fun kv => kv.2)).flatMap allScalars
+      | _ => []
+    here ++ kids
+  | _ => []
+
+def parseVal (vj : Json) : Val :=
+  match getStr vj "k" with
+  | some "list" => .list ((getArr vj "l").map parseSc)
+  | _ => .sc (parseSc vj)
+
+def valToJson : Val → Json
+  | .sc s => scToJson s
+  | .list l => Json.mkObj [("k", "list"), ("l", Json.arr (l.map scToJson).toArray)]
+
+def parseArgs (j : Json) : Args :=
+  { value := parseVal (getField j "value"),
+    type := (getStr j "type").map tyOfName,
+    isArray := getBool j "is_array",
+    emb := match getField j "emb" with
+      | .null => .infer
+      | .bool false => .no
+      | .str "instance" => .emb .instance
+      | .str "object" => .emb .object
+      | _ => .bad,
+    refClass := (getBool j "refclass").getD false }
+
+def kindOfName (s : Option String) : ElemKind :=
+  match s with
+  | some "CIMParameter" => .parameter
+  | some "CIMQualifier" => .qualifier
+  | some "CIMQualifierDeclaration" => .qualifierDecl
+  | _ => .property
+
+def elemToJson (e : Elem) : Json :=
+  Json.mkObj [("type", e.type.name), ("value", valToJson e.value), ("is_array", e.isArray),
+    ("emb", match e.embedded with | none => Json.null | some .instance => "instance" | some .object => "object")]
+
+def parseGiven (j : Json) : Given :=
+  match getField j "prop" with
+  | .null => .value (parseVal (getField j "value"))
+  | pj => .prop ((getNat pj "name").getD 0) (parseArgs pj)
+
+def parseOp (j : Json) : Option Op :=
+  let items := getArr j "items"
+  match getStr j "op" with
+  | some "update" => some (.update (items.map (fun it => ((getNat it "key").getD 0, parseGiven it))))
+  | some "update_existing" => some (.updateExisting (items.map (fun it => ((getNat it "key").getD 0, parseVal (getField it "value")))))
+  | some "setitem" => (items.head?).map (fun it => .setItem ((getNat it "key").getD 0) (parseGiven it))
+  | some "propvalue" => (items.head?).map (fun it => .propValue ((getNat it "key").getD 0) (parseVal (getField it "value")))
+  | _ => none
+
+def instToJson (i : Inst) : Json :=
+  Json.arr (i.props.map (fun p => Json.arr #[(p.1 : Json), elemToJson p.2])).toArray
+
+def excOptJ : Option PyExc → Json
+  | none => Json.null
+  | some e => excJ e
+
+/-- run a history step by step, reporting exception and state after every step -/
+def runSteps (env : Env) : Inst → List Op → List Json
+  | _, [] => []
+  | i, o :: r =>
+    let (i', e) := step env i o
+    Json.mkObj [("exc", excOptJ e), ("state", instToJson i')] :: runSteps env i' r
 
 def handle (j : Json) : Json :=
   match getStr j "op" with
@@ -187,6 +265,30 @@ def handle (j : Json) : Json :=
       | .sc s => Json.mkObj [("ok", scToJson s)]
       | .list l => Json.mkObj [("ok", Json.mkObj [("k", "list"), ("l", Json.arr (l.map scToJson).toArray)])])
       (cimvalue env v t)
+  | some "elem" =>
+    -- {"op":"elem","kind":K,"args":ARGS,"values":[v…]}: construct, then assign each value through the value setter
+    let env := envOf (allScalars j)
+    let k := kindOfName (getStr j "kind")
+    match mkElem env k (parseArgs (getField j "args")) with
+    | .error e => excJ e
+    | .ok e0 =>
+      let rec go (e : Elem) : List Json → List Json
+        | [] => []
+        | vj :: r =>
+          match setValue env e (parseVal vj) with
+          | .error ex => Json.mkObj [("exc", excJ ex), ("elem", elemToJson e)] :: go e r
+          | .ok e' => Json.mkObj [("exc", Json.null), ("elem", elemToJson e')] :: go e' r
+      Json.mkObj [("ok", elemToJson e0), ("steps", Json.arr (go e0 (getArr j "values")).toArray)]
+  | some "hist" =>
+    -- {"op":"hist","init":[{"key":n,"args":ARGS}…],"ops":[OP…]}: instance with the initial properties, then the history
+    let env := envOf (allScalars j)
+    let init := (getArr j "init").foldl (fun (acc : Except PyExc Inst) it =>
+      acc.bind (fun i => (mkProperty env (parseArgs (getField it "args"))).map
+        (fun p => { props := putProp i.props ((getNat it "key").getD 0) p }))) (.ok {})
+    match init, (getArr j "ops").mapM parseOp with
+    | .error e, _ => excJ e
+    | _, none => Json.mkObj [("bad", "op")]
+    | .ok i0, some ops => Json.mkObj [("ok", Json.arr (runSteps env i0 ops).toArray)]
   | some "unp" =>
     let outs := (getArr j "items").map (fun it =>
       let t : NumTy := match getStr it "t" with
